@@ -27,13 +27,13 @@ theorem write_confined (p : Path) (v n : T) (A : List Nat) (f : Nat) (v' : T) (A
   have hb := upd_book p v n A f v' A' f' log h hv hn hA
   ⟨hb.2.2.2.2.2.2, hb.2.1⟩
 
-/-- the same without any assumption on labels: a written cell is registered in the allocator at the
-    time of the write, and the allocator only ever gains cells allocated by the call itself -/
+/-- the same without any assumption on labels: a written cell was registered before the call or was
+    allocated by the call itself, and so is every cell registered afterwards -/
 theorem write_confined_any (p : Path) (v n : T) (A : List Nat) (f : Nat) (v' : T) (A' : List Nat) (f' : Nat) (log : Log)
     (h : upd A f p v n = some (v', A', f', log)) :
-    (∀ e ∈ log, e.1 ∈ A') ∧ (∀ a ∈ A', a ∈ A ∨ (f ≤ a ∧ a < f')) :=
+    (∀ e ∈ log, e.1 ∈ A ∨ (f ≤ e.1 ∧ e.1 < f')) ∧ (∀ a ∈ A', a ∈ A ∨ (f ≤ a ∧ a < f')) :=
   have hb := upd_confined p v n A f v' A' f' log h
-  ⟨hb.2.2.2, hb.2.2.1⟩
+  ⟨hb.2.2, hb.2.1⟩
 
 /-- **`delpaths` writes only owned cells** (C05.1 for delpaths/`_delpaths`, after 97b79ee): both the
     marking pass and `deleteEmpty` store only into cells registered in the allocator, which consists of
@@ -78,8 +78,8 @@ theorem setpath_isolated (p : Path) (v n t : T) (f : Nat) (v' : T) (A' : List Na
     applyLog log t = t ∧ ∀ fuel, observe log fuel t = t := by
   apply shared_unchanged t f log ht
   intro e he
-  obtain ⟨h1, h2⟩ := write_confined_any p v n [] f v' A' f' log h
-  rcases h2 _ (h1 e he) with h3 | h3
+  obtain ⟨h1, _⟩ := write_confined_any p v n [] f v' A' f' log h
+  rcases h1 e he with h3 | h3
   · cases h3
   · exact h3.1
 
